@@ -304,7 +304,7 @@ static std::string run_ops(Set& set, bool hash, const std::vector<std::string>& 
 		default: return "BAD-CASE";
 		}
 		os << '/' << set.size() << '/';
-		if (hash) os << '-'; else os << set.rsize();
+		os << set.rsize();	// initialised by every constructor since b713cdd
 	}
 	return os.str();
 }
